@@ -1,6 +1,7 @@
 import NriModel.Lemmas.StubSession
 import NriModel.Lemmas.StubSessionTrace
 import NriModel.Lemmas.StubSessionAny
+import NriModel.Lemmas.StubSessionStart
 /-!
 Property C16 — starting, stopping and restarting the stub terminates and leaves it usable.
 
@@ -31,32 +32,26 @@ theorem C16_start_returns {s : State} (hr : Reach s) (o : Script) (ho : o ≠ .s
         (o = .ok ∨ o = .dropLate) ∧ s'.started = true ∧ s'.cur = s.cur + 1 ∧ s'.cur ∈ s'.estab) := by
   have hg := hr.good
   have hw := hg.notWedged
+  have hiff := start_iff hw hg.connNone o
+  have hnb : StartRes.blocked ∉ startPossible s o := by
+    unfold startPossible startResults
+    cases o <;> simp at ho ⊢ <;> (repeat' split) <;> simp_all
   refine ⟨hw, ?_, ?_, ?_⟩
-  · by_cases hs : s.started = true
-    · exact ⟨.err .already, s, by simp, by simp [step?, hw, startStep, hs]⟩
-    · have hs' : s.started = false := by simpa using hs
-      have hc := hg.connNone hs'
-      have hd : s.dials + 1 ∉ s.dead := by intro hm; have := hg.dead_rng _ hm; omega
-      cases o with
-      | dialFail => exact ⟨.err .dial, s, by simp, by simp [step?, hw, startStep, hs', hc]⟩
-      | refuse => exact ⟨.err .register, _, by simp, by simp [step?, hw, startStep, hs', hc, connDead, hd]; rfl⟩
-      | noAnswer => exact ⟨.err .register, _, by simp, by simp [step?, hw, startStep, hs', hc, connDead, hd]; rfl⟩
-      | dropReg => exact ⟨.err .register, _, by simp, by simp [step?, hw, startStep, hs', hc, connDead, hd]; rfl⟩
-      | dropCfg => exact ⟨.err .closed, _, by simp, by simp [step?, hw, startStep, hs', hc, connDead, hd, fixed]; rfl⟩
-      | dropLate => exact ⟨.ok, _, by simp, by simp [step?, hw, startStep, hs', hc, connDead, hd]; rfl⟩
-      | cfgErr => exact ⟨.err .configure, _, by simp, by simp [step?, hw, startStep, hs', hc, connDead, hd]; rfl⟩
-      | ok => exact ⟨.ok, _, by simp, by simp [step?, hw, startStep, hs', hc, connDead, hd]; rfl⟩
-      | stall => exact absurd rfl ho
+  · have hne : ∃ r, r ∈ startPossible s o := by
+      unfold startPossible startResults
+      cases o <;> (repeat' split) <;> simp
+    obtain ⟨r, hr'⟩ := hne
+    have h1 := (hiff r).mpr hr'
+    obtain ⟨s', hs'⟩ := Option.isSome_iff_exists.mp h1
+    exact ⟨r, s', fun hb => hnb (hb ▸ hr'), hs'⟩
   · intro s' h
-    simp only [step?, hw] at h
-    rcases start_cases hg ho h with ⟨_, h1, _⟩ | ⟨_, _, h1, _⟩ | ⟨_, ⟨k, h1⟩, _⟩ | ⟨_, _, h1, _⟩ |
-      ⟨_, _, h1, _⟩ <;> cases h1
+    exact hnb ((hiff .blocked).mp (by simp [h]))
   · intro r s' h hok
     simp only [step?, hw] at h
-    rcases start_cases hg ho h with ⟨_, h1, _⟩ | ⟨_, _, h1, _⟩ | ⟨_, ⟨k, h1⟩, _⟩ | ⟨_, h0, _, rfl⟩ |
-      ⟨_, h0, _, rfl⟩
+    rcases start_cases hg ho h with ⟨_, h1, _⟩ | ⟨_, h1, _⟩ | ⟨_, _, ⟨k, h1⟩, _⟩ | ⟨_, _, h0, _, rfl⟩ |
+      ⟨_, _, h0, _, rfl⟩
     · subst h1; cases hok
-    · subst h1; cases hok
+    · rcases h1 with h1 | h1 <;> (subst h1; cases hok)
     · subst h1; cases hok
     · simp [h0, establish, fresh]
     · simp [h0, establish, fresh, lose, closeClient, markDead]
@@ -65,7 +60,7 @@ theorem C16_start_returns {s : State} (hr : Reach s) (o : Script) (ho : o ≠ .s
     dropped between registration and configuration and a session that was established,
     lost, and whose close notification is still in flight -/
 example : ∃ s, Reach s ∧ s.started = true ∧ s.inflight = [1, 2] ∧ s.dead = [1, 2] :=
-  ⟨_, ⟨[.start .dropCfg (.err .closed), .start .ok .ok, .connLost], by decide, rfl⟩, rfl, rfl, rfl⟩
+  ⟨_, ⟨.dialer, [.start .dropCfg (.err .closed), .start .ok .ok, .connLost], by decide, rfl⟩, rfl, rfl, rfl⟩
 
 /-- Wait returns after a failed start, a stop, or a lost connection: the `doneC` of every
     session that is over is closed (a `Wait` blocked on it is released); `Stop` is always
@@ -89,14 +84,7 @@ theorem C16_wait_returns {s : State} (hr : Reach s) :
   · refine ⟨by simp [step?, hw], ?_⟩
     unfold closeStub; split <;> simp_all
   · intro o k s' h hk
-    simp only [step?, hw] at h
-    unfold startStep at h
-    by_cases hs : s.started = true
-    · simp only [hs, if_true] at h; grind
-    · have hs' : s.started = false := by simpa using hs
-      have hc := hg.connNone hs'
-      simp only [hs', hc] at h
-      cases o <;> simp [fixed, failStart, closeClient, markDead] at h <;> grind
+    exact start_err_not_started hw h hk
   · intro s' h
     simp only [step?, hw] at h
     simp at h
@@ -113,7 +101,7 @@ theorem C16_wait_returns {s : State} (hr : Reach s) :
 /-- non-vacuity: a state with an ended session, an inflight notification of the current
     session (connection lost) -/
 example : ∃ s, Reach s ∧ ended s 1 ∧ s.cur ∈ s.inflight ∧ s.started = true :=
-  ⟨_, ⟨[.start .refuse (.err .register), .start .ok .ok, .connLost], by decide, rfl⟩,
+  ⟨_, ⟨.dialer, [.start .refuse (.err .register), .start .ok .ok, .connLost], by decide, rfl⟩,
     by decide, by decide, by decide⟩
 
 /-- onClose fires exactly once per session: never twice; for every session that is over the
@@ -150,42 +138,70 @@ theorem C16_onclose_once {s : State} (hr : Reach s) :
 
 /-- non-vacuity: three sessions over (one fired, two in flight), none live -/
 example : ∃ s, Reach s ∧ ended s 1 ∧ ended s 3 ∧ s.inflight = [2, 3] ∧ s.fired = [1] :=
-  ⟨_, ⟨[.start .ok .ok, .stop, .closeNotify 1, .start .cfgErr (.err .configure), .start .ok .ok,
+  ⟨_, ⟨.dialer, [.start .ok .ok, .stop, .closeNotify 1, .start .cfgErr (.err .configure), .start .ok .ok,
         .stop], by decide, rfl⟩, by decide, by decide, rfl, rfl⟩
 
 /-- Restartable: whenever the stub is not started (after a failed start, a stop, or the
-    close notification of a lost session — see `C16_wait_returns`), a `Start` against a
-    healthy runtime end succeeds, on a connection dialled by that very call and not closed,
-    with a new session, and requests from the runtime end are answered. -/
-theorem C16_restartable {s : State} (hr : Reach s) (hs : s.started = false) :
-    ∃ s', step? fixed s (.start .ok .ok) = some s' ∧ s'.started = true ∧
+    close notification of a lost session — see `C16_wait_returns`) and its connection source
+    is not a consumed environment descriptor, a `Start` against a healthy runtime end returns
+    ok — and nothing else (`r = .ok` is forced) — on a connection obtained by that very call
+    and not closed, with a new session, and requests from the runtime end are answered (and
+    cannot fail). -/
+theorem C16_restartable {s : State} (hr : Reach s) (hs : s.started = false)
+    (hsrc : s.src = .envFd → s.preUsed = false) :
+    (∃ s', step? fixed s (.start .ok .ok) = some s') ∧
+    (∀ r s', step? fixed s (.start .ok r) = some s' →
+      r = .ok ∧ s'.started = true ∧
       s'.conn = some (s.dials + 1) ∧ s'.dials = s.dials + 1 ∧ s.dials + 1 ∉ s'.dead ∧
       s'.cur = s.cur + 1 ∧ alive s' = true ∧
-      step? fixed s' (.dispatch true) = some s' ∧ step? fixed s' (.dispatch false) = none := by
+      step? fixed s' (.dispatch true) = some s' ∧ step? fixed s' (.dispatch false) = none) := by
   have hg := hr.good
   have hw := hg.notWedged
-  have hc := hg.connNone hs
   have hd : s.dials + 1 ∉ s.dead := by intro hm; have := hg.dead_rng _ hm; omega
   have h1 : s.cur + 1 ∉ s.inflight := by intro hm; have := hg.infl_rng _ hm; omega
   have h2 : s.cur + 1 ∉ s.fired := by intro hm; have := hg.fired_rng _ hm; omega
-  refine ⟨_, by simp [step?, hw, startStep, hs, hc, connDead, hd]; rfl, ?_⟩
-  simp [establish, alive, step?, hd, h1, h2]
+  have hposs : startPossible s .ok = [.ok] := by
+    unfold startPossible startResults
+    simp only [hs, Bool.false_eq_true, if_false]
+    split
+    · rename_i h; exact absurd (hsrc h.1) (by simp [h.2])
+    · split <;> simp
+  constructor
+  · have := (start_iff hw hg.connNone .ok .ok).mpr (by simp [hposs])
+    exact Option.isSome_iff_exists.mp this
+  · intro r s' h
+    have hr' : r = .ok := by
+      have := (start_iff hw hg.connNone .ok r).mp (by simp [h])
+      simpa [hposs] using this
+    subst hr'
+    simp only [step?, hw] at h
+    rcases start_cases hg (by simp) h with ⟨h0, _⟩ | ⟨_, h0, _⟩ | ⟨_, _, ⟨k, h0⟩, _⟩ | ⟨pre, _, _, _, rfl⟩ |
+      ⟨_, _, h0, _⟩
+    · simp [hs] at h0
+    · rcases h0 with h0 | h0 <;> cases h0
+    · cases h0
+    · simp [establish, fresh, alive, step?, hd, h1, h2]
+    · cases h0
 
-/-- … and from ANY reachable state a not-started state is one `Stop` away, so the sequence
+/-- … and from ANY reachable state of a stub that connects through the dialer (or was handed
+    a connection with `WithConnection`) a not-started state is one `Stop` away, so the sequence
     Stop, Start (healthy runtime end), request is always possible and ends with the stub
     started. -/
-theorem C16_restartable_from_any {s : State} (hr : Reach s) :
+theorem C16_restartable_from_any {s : State} (hr : Reach s) (hsrc : s.src ≠ .envFd) :
     ∃ s', run fixed s [.stop, .start .ok .ok, .dispatch true] = some s' ∧ s'.started = true ∧
       alive s' = true := by
   have hw := hr.good.notWedged
   have h1 : step? fixed s .stop = some (closeStub s) := by simp [step?, hw]
   have hr1 : Reach (closeStub s) := hr.step (by rfl) h1
   have hs1 : (closeStub s).started = false := by unfold closeStub; split <;> simp_all
-  obtain ⟨s', h2, h3, _, _, _, _, h4, h5, _⟩ := C16_restartable hr1 hs1
-  exact ⟨s', by simp [run, h1, h2, h5], h3, h4⟩
+  have hsrc1 : (closeStub s).src = .envFd → (closeStub s).preUsed = false := by
+    intro h; exfalso; apply hsrc; revert h; unfold closeStub; split <;> simp [closeClient, markDead]
+  obtain ⟨⟨s', h2⟩, h3⟩ := C16_restartable hr1 hs1 hsrc1
+  obtain ⟨_, h4, _, _, _, _, h5, h6, _⟩ := h3 .ok s' h2
+  exact ⟨s', by simp [run, h1, h2, h6], h4, h5⟩
 
 example : ∃ s, Reach s ∧ s.started = false ∧ s.inflight = [1, 2] :=
-  ⟨_, ⟨[.start .dropReg (.err .register), .start .dropLate .ok, .stop], by decide, rfl⟩, rfl, rfl⟩
+  ⟨_, ⟨.dialer, [.start .dropReg (.err .register), .start .dropLate .ok, .stop], by decide, rfl⟩, rfl, rfl⟩
 
 /-- A late close notification of an earlier session leaves the current session untouched:
     it only records that `onClose` ran for that earlier session. -/
@@ -226,8 +242,19 @@ theorem C16_live_session_stable {s s' : State} {e : Event} (hr : Reach s) (ha : 
     · simp [hin] at h
   | wait ret =>
     simp only [step?, hw] at h
-    have : s' = s := by grind
-    subst this; exact ⟨ha, rfl, hs, rfl⟩
+    cases ret with
+    | true => have : s' = s := by grind
+              subst this; exact ⟨ha, rfl, hs, rfl⟩
+    | false =>
+      simp only [Bool.false_eq_true, if_false] at h
+      split at h
+      · simp at h; subst h; exact ⟨by simpa [alive] using ha, rfl, hs, rfl⟩
+      · cases h
+  | waitRet sid =>
+    simp only [step?] at h
+    split at h
+    · simp at h; subst h; exact ⟨by simpa [alive] using ha, rfl, hs, rfl⟩
+    · cases h
   | dispatch ok =>
     simp only [step?] at h
     have : s' = s := by grind
@@ -235,7 +262,76 @@ theorem C16_live_session_stable {s s' : State} {e : Event} (hr : Reach s) (ha : 
 
 /-- non-vacuity: session 2 is live while the notification of session 1 is still in flight -/
 example : ∃ s, Reach s ∧ 1 ∈ s.inflight ∧ 1 ≠ s.cur ∧ alive s = true :=
-  ⟨_, ⟨[.start .ok .ok, .stop, .start .ok .ok], by decide, rfl⟩, by decide, by decide, by decide⟩
+  ⟨_, ⟨.dialer, [.start .ok .ok, .stop, .start .ok .ok], by decide, rfl⟩, by decide, by decide, by decide⟩
+
+/-! ### No other outcome is possible (exact characterisations) -/
+
+/-- The results of `Start` are EXACTLY `startPossible s o`: "already started" when started;
+    otherwise the results `startResults` lists for the runtime end's behaviour (for a healthy
+    runtime end: `ok` and nothing else; for a refusal: a registration error and nothing else;
+    …); for a stub whose environment descriptor is used up: an error and nothing else. -/
+theorem C16_start_results {s : State} (hr : Reach s) (o : Script) (r : StartRes) :
+    (∃ s', step? fixed s (.start o r) = some s') ↔ r ∈ startPossible s o := by
+  have hg := hr.good
+  rw [← start_iff hg.notWedged hg.connNone o r, Option.isSome_iff_exists]
+
+/-- in particular: a not-started stub started against a healthy runtime end cannot fail -/
+theorem C16_restart_only_ok {s s' : State} {r : StartRes} (hr : Reach s) (hs : s.started = false)
+    (hsrc : s.src = .envFd → s.preUsed = false)
+    (h : step? fixed s (.start .ok r) = some s') : r = .ok :=
+  ((C16_restartable hr hs hsrc).2 r s' h).1
+
+example : ∃ s, Reach s ∧ s.started = false ∧ startPossible s .dropLate = [.ok, .err .register, .err .closed] :=
+  ⟨_, ⟨.dialer, [.start .cfgErr (.err .register)], by decide, rfl⟩, rfl, by decide⟩
+
+/-- `Wait` returns at once exactly when the stub is not started, and blocks exactly when it
+    is started: a not-started stub never blocks a `Wait` (`wait false` is impossible), a
+    started one never lets it through (`wait true` is impossible). A blocking `Wait` is
+    recorded as blocked on the current session. -/
+theorem C16_wait_outcome {s : State} (hr : Reach s) :
+    (s.started = false → step? fixed s (.wait true) = some s ∧ step? fixed s (.wait false) = none) ∧
+    (s.started = true → step? fixed s (.wait true) = none ∧
+      step? fixed s (.wait false) = some { s with waiting := s.waiting ++ [s.cur] }) := by
+  have hg := hr.good
+  have hw := hg.notWedged
+  constructor
+  · intro hs; simp [step?, hw, hs]
+  · intro hs
+    have hnd : s.cur ∉ s.done := fun hm => by
+      have := (hg.done_rng _ hm).2.2 rfl; simp [hs] at this
+    simp [step?, hw, hs, hnd]
+
+example : ∃ s, Reach s ∧ s.started = true ∧ s.waiting = [1] :=
+  ⟨_, ⟨.dialer, [.start .ok .ok, .wait false], by decide, rfl⟩, rfl, rfl⟩
+
+/-- A blocked `Wait` is released exactly when the session it waits on is over: while that
+    session is the live one its return is impossible; once the session is over (stopped,
+    lost and notified, or torn down by a failed restart) its return is enabled; and when the
+    stub is not started ALL blocked `Wait` calls can return, after which none is blocked. -/
+theorem C16_wait_released {s : State} (hr : Reach s) :
+    (∀ sid, sid ∈ s.waiting → 1 ≤ sid ∧ sid ≤ s.cur) ∧
+    (∀ sid, sid ∈ s.waiting → ended s sid →
+      step? fixed s (.waitRet sid) = some { s with waiting := s.waiting.erase sid }) ∧
+    (∀ sid, sid = s.cur → s.started = true → step? fixed s (.waitRet sid) = none) ∧
+    (∀ sid, sid ∉ s.waiting → step? fixed s (.waitRet sid) = none) ∧
+    (s.started = false → ∃ s', run fixed s (s.waiting.map .waitRet) = some s' ∧ s'.waiting = [] ∧
+      Reach s' ∧ s'.started = false) := by
+  have hg := hr.good
+  refine ⟨hg.waiting_rng, ?_, ?_, ?_, ?_⟩
+  · intro sid hin ⟨h1, h2, h3⟩
+    have := hg.endedDone sid h1 h2 h3
+    simp [step?, hin, this]
+  · intro sid hc hs
+    have hnd : s.cur ∉ s.done := fun hm => by
+      have := (hg.done_rng _ hm).2.2 rfl; simp [hs] at this
+    simp [step?, hc, hnd]
+  · intro sid hn; simp [step?, hn]
+  · intro hs
+    exact drainWaiters hr hs
+
+example : ∃ s, Reach s ∧ s.waiting = [1, 1] ∧ ended s 1 :=
+  ⟨_, ⟨.dialer, [.start .ok .ok, .wait false, .wait false, .connLost, .closeNotify 1], by decide, rfl⟩,
+    rfl, by decide⟩
 
 /-- The acceptance automaton of the driver (`closure`: deliver pending notifications in any
     order, let the pending observed operation take effect) derives only reachable states from
@@ -248,9 +344,79 @@ theorem C16_trace_sound (p : Option OpObs) (hp : ∀ pd, p = some pd → pd.inDo
 /-- non-vacuity: the automaton's start configuration; and a closure that really moves (the
     pending Stop applied, then the notification it caused delivered) -/
 example : AllCfg Reach [{ s := init, applied := true }] := by
-  intro c hc; simp at hc; subst hc; exact init_reach
+  intro c hc; simp at hc; subst hc; exact init_reach .dialer
 example : (closure (some .stop)
-    [{ s := (establish (fresh init)), applied := false }] 8).length = 3 := by decide
+    [{ s := (establish (fresh false init)), applied := false }] 8).length = 3 := by decide
+
+/-- Label faithfulness of the acceptance automaton: whatever state it derives for an observed
+    operation is the result of the model step carrying exactly the observed label — the
+    observed runtime behaviour and result for `Start` (from a state where the model predicts
+    the observed dial, session and connection numbers), `stop`, `wait b`, `dispatch ok`; a late
+    `Wait` return only by a `waitRet` of a session a `Wait` is blocked on; an `impossible`
+    observation (blocked Stop/Wait, unknown error kind) by nothing; and a pending operation
+    takes effect at most once (only from `applied = false` to `applied = true`). -/
+theorem C16_trace_faithful :
+    (∀ o r d sid conn s s', s' ∈ applyObs (.start o r d sid conn) s →
+      step? fixed s (.start o r) = some s' ∧ wouldDial s = d ∧
+      (if s'.cur = s.cur + 1 then s'.cur else 0) = sid ∧
+      (if s'.dials = s.dials + 1 then s'.dials else 0) = conn) ∧
+    (∀ s s', s' ∈ applyObs .stop s → step? fixed s .stop = some s') ∧
+    (∀ b s s', s' ∈ applyObs (.wait b) s → step? fixed s (.wait b) = some s') ∧
+    (∀ ok s s', s' ∈ applyObs (.request ok) s → step? fixed s (.dispatch ok) = some s') ∧
+    (∀ conn s s', s' ∈ applyObs (.lose conn) s → s' = loseConn conn s) ∧
+    (∀ s s', s' ∈ applyObs .nop s → s' = s) ∧
+    (∀ s, applyObs .impossible s = []) ∧
+    (∀ s s', s' ∈ releaseAny s → ∃ sid, sid ∈ s.waiting ∧ step? fixed s (.waitRet sid) = some s') ∧
+    (∀ p c c', c' ∈ silent p c →
+      (∃ sid, sid ∈ c.s.inflight ∧ step? fixed c.s (.closeNotify sid) = some c'.s ∧
+          c'.applied = c.applied) ∨
+      (∃ pd, p = some pd ∧ c.applied = false ∧ c'.applied = true ∧ c'.s ∈ applyObs pd c.s)) :=
+  ⟨fun _ _ _ _ _ _ _ h => applyObs_start h,
+   fun _ _ h => applyObs_faithful (p := .stop) h,
+   fun _ _ _ h => applyObs_faithful (p := .wait _) h,
+   fun _ _ _ h => applyObs_faithful (p := .request _) h,
+   fun _ _ _ h => applyObs_faithful (p := .lose _) h,
+   fun _ _ h => applyObs_faithful (p := .nop) h,
+   applyObs_impossible,
+   fun _ _ h => releaseAny_faithful h,
+   fun _ _ _ h => silent_faithful h⟩
+
+/-- non-vacuity: an observed Start with the wrong result, or from a state where the model
+    predicts a dial but none was observed, is rejected; the right one is accepted -/
+example : applyObs (.start .ok (.err .register) true 1 1) init = [] ∧
+    applyObs (.start .ok .ok false 1 1) init = [] ∧
+    (applyObs (.start .ok .ok true 1 1) init).length = 1 := by decide
+
+/-! ### Pre-connected stubs (outside the property's "fresh connection"; recorded) -/
+
+/-- A stub created with `NRI_PLUGIN_SOCKET` (every pre-installed plugin) is single-shot: its
+    first `Start` takes the inherited descriptor into use without dialling; once that is used
+    up, every later `Start` on the not-started stub returns an error — "invalid socket", or,
+    if the process has reused the descriptor number, a registration error after adopting and
+    closing a socket that is not its own — never `ok`, never `blocked`, and the stub stays
+    not started. A stub created with `WithConnection` uses the given connection once (no
+    dial) and the dialer afterwards. -/
+theorem C16_preconnected_single_shot {s : State} (hr : Reach s) (hs : s.started = false) :
+    (s.src ≠ .dialer → s.preUsed = false → wouldDial s = false) ∧
+    (s.src = .given → s.preUsed = true → wouldDial s = true) ∧
+    (s.src = .envFd → s.preUsed = true → ∀ o r s', step? fixed s (.start o r) = some s' →
+      (r = .err .preconn ∧ s' = s) ∨ (r = .err .register ∧ s'.started = false ∧ wouldDial s = false)) := by
+  have hg := hr.good
+  have hw := hg.notWedged
+  refine ⟨?_, ?_, ?_⟩
+  · intro h1 h2; simp [wouldDial, h1, h2]
+  · intro h1 h2; simp [wouldDial, hs, hg.connNone hs, h1, h2]
+  · intro h1 h2 o r s' h
+    have hposs := (start_iff hw hg.connNone o r).mp (by simp [h])
+    simp [startPossible, hs, h1, h2] at hposs
+    rcases hposs with rfl | rfl
+    · left; refine ⟨rfl, ?_⟩
+      simp [step?, hw, startStep, hs, hg.connNone hs, h1, h2] at h
+      exact h.symm
+    · right; exact ⟨rfl, start_err_not_started hw h (by simp), by simp [wouldDial, h1]⟩
+
+example : ∃ s, Reach s ∧ s.started = false ∧ s.src = .envFd ∧ s.preUsed = true :=
+  ⟨_, ⟨.envFd, [.start .ok .ok, .stop], by decide, rfl⟩, rfl, rfl, rfl⟩
 
 /-! ### The code before the patch (witnesses; `unfixed` = all three repairs absent) -/
 
@@ -258,11 +424,11 @@ example : (closure (some .stop)
     also after a `stall`: no session's `onClose` fires twice, a session whose callback ran has
     no further notification pending, and only sessions that exist are notified. (What the
     code before the patch does not give is "at least once": `unfixed_start_blocks`.) -/
-theorem C16_onclose_atmost_once_any (v : Variant) (h : List Event) (s : State)
-    (hr : run v init h = some s) (sid : Nat) :
+theorem C16_onclose_atmost_once_any (v : Variant) (src : ConnSrc) (h : List Event) (s : State)
+    (hr : run v (initWith src) h = some s) (sid : Nat) :
     s.fired.count sid ≤ 1 ∧ s.fired.count sid + s.inflight.count sid ≤ 1 ∧
     (sid ∈ s.fired ∨ sid ∈ s.inflight → 1 ≤ sid ∧ sid ≤ s.cur) := by
-  have hb := (book'_run v book'_init h hr).toBook
+  have hb := (book'_run v (book'_init src) h hr).toBook
   refine ⟨List.nodup_iff_count.mp hb.fired_nodup sid, ?_, ?_⟩
   · rw [hb.fired_nodup.count, hb.infl_nodup.count]
     have := hb.disj sid
